@@ -18,7 +18,7 @@ def run(ctx):
         recs += rs
     sims = [(ctx.seed, 40, 4)] if ctx.quick() else [(ctx.seed, 150, 3), (ctx.seed + 1, 150, 6), (ctx.seed + 2, 100, 10)]
     for sd, n, k in sims:
-        r, rs = langfam.records(ctx, "multi", simulate=n, depth=k + 2, seed=sd, max_fields=k)
+        r, rs = langfam.records(ctx, "multi", simulate=n, depth=k + 2, seed=sd, max_fields=k, limit=2 * n)
         fams["multi"] = fams.get("multi", 0) + len(rs)
         recs += rs
     pl = langfam.Pipeline(ctx, "c05")
